@@ -108,10 +108,17 @@ func genScalarTV(t *rapid.T) TV {
 			if bits&0x7f800000 == 0x7f800000 {
 				bits &^= 0x00800000 // keep it finite
 			}
+			if oneIn(t, 8, "nonfinite32") {
+				bits = []uint32{0x7f800000 /*+Inf*/, 0xff800000 /*-Inf*/, 0x7fc00000 /*NaN*/}[drawIdx(t, 3, "nf32")]
+			}
 		}
 		return TV{T: "float32", F: uint64(bits)}
 	case 4:
 		f, _ := GenFloat(t)
+		if oneIn(t, 8, "nonfinite64") {
+			// the full range of float64 includes the non-finite values: they are floats like any other
+			f = []float64{math.Inf(1), math.Inf(-1), math.NaN()}[drawIdx(t, 3, "nf64")]
+		}
 		return TV{T: "float64", F: math.Float64bits(f)}
 	}
 	return TV{T: "string", S: GenString(t, 6)}
@@ -610,7 +617,12 @@ func slotCheck(cont any, idx int, key string, want V, passedByRef any) error {
 			if panicked {
 				return errf("the typed getter for %v panicked on a value of that kind", k)
 			}
-			if !ifaceEq(r, g) {
+			same := ifaceEq(r, g)
+			if rf, ok := r.(float64); ok && !same {
+				gf, ok2 := g.(float64)
+				same = ok2 && math.Float64bits(rf) == math.Float64bits(gf) // NaN is not == itself
+			}
+			if !same {
 				return errf("the typed getter for %v returns %s, Get returns %s", k, showAny(r), showAny(g))
 			}
 		} else if !panicked {
@@ -802,6 +814,28 @@ func CheckC12(c *C12Case, st *Stats) error {
 	if c.Entry == "NewListOf" {
 		if err := slotCheck(cont, 0, "", want, byRef); err != nil {
 			return errf("%s with a %s (element 0): %v", c.Entry, c.Val.T, err)
+		}
+	}
+	// maps and slices become FRESH containers: two conversions (of two separately built inputs) never
+	// yield the same container, and changing one does not change the other
+	if byRef == nil && (want.K == KList || want.K == KObject) {
+		two := at.NewList(toGo(c.Val), toGo(c.Val))
+		first, second := two.Get(0), two.Get(1)
+		if first == second {
+			return errf("two conversions of a %s produced the identical container (conversions must be fresh)", c.Val.T)
+		}
+		switch x := first.(type) {
+		case at.List:
+			x.Add("marker")
+		case at.Object:
+			x.Set("marker", 1)
+		}
+		if snap, err := Snap(second); err != nil || !EqVBits(snap, want) {
+			return errf("changing one converted %s changed another conversion of an equal value: %s, expected %s (%v)", c.Val.T, snap.Show(), want.Show(), err)
+		}
+		third := at.NewObject("k", toGo(c.Val)).Get("k")
+		if snap, err := Snap(third); err != nil || !EqVBits(snap, want) {
+			return errf("a later conversion of an equal %s is %s, expected %s (%v)", c.Val.T, snap.Show(), want.Show(), err)
 		}
 	}
 	return nil
